@@ -436,7 +436,7 @@ def _matrix_shapes(tier):
 
 # ------------------------------------------------------------------ python-function relations
 
-_BUILDS_F = ["positional", "decorator", "kwargs-fallback", "f_kwargs", "named-f_kwargs", "partial-base"]
+_BUILDS_F = ["positional", "decorator", "kwargs-fallback", "f_kwargs", "named-f_kwargs", "partial-base", "positional-namesakes", "decorator-namesakes"]
 
 
 def h_function(env):
@@ -454,6 +454,17 @@ def h_function(env):
         make = lambda: R.NAryFunctionRelation(_mk_func(["p%d" % i for i in range(len(vs))], tab.cell), given, name="r")  # noqa
     elif build == "decorator":
         make = lambda: R.AsNAryFunctionRelation(*vs)(_mk_func(["p%d" % i for i in range(len(vs))], tab.cell))  # noqa
+    elif build in ("positional-namesakes", "decorator-namesakes"):
+        # the arguments of the function carry the NAMES of the variables, in another order: without f_kwargs the i-th variable
+        # is still the i-th argument (mapping by position), whatever the names say
+        perm = env.choice("argument-names-permutation", list(itertools.permutations(range(len(vs)))))
+        argnames = [vs[i].name for i in perm]
+        if list(perm) != sorted(perm):
+            sfx = "[argument-named-like-another-variable]"
+        if build == "positional-namesakes":
+            make = lambda: R.NAryFunctionRelation(_mk_func(argnames, tab.cell), given, name="r")  # noqa
+        else:
+            make = lambda: R.AsNAryFunctionRelation(*vs)(_mk_func(argnames, tab.cell))  # noqa
     elif build in ("kwargs-fallback", "f_kwargs"):
         def g(**kw):
             return tab(**kw)
@@ -490,7 +501,7 @@ def h_function(env):
     if base is not None:
         _prove(env, "function[%s].frame.keywords-of-the-partial-unchanged%s" % (build, sfx), _unchanged(base_kw, base.keywords),
                detail=lambda: dict(before=base_kw, now=_items(base.keywords)))
-    if build != "decorator":
+    if build not in ("decorator", "decorator-namesakes"):
         _frame_variable_list(env, "function[%s]" % build, rel, given, scope, sfx)
 
 
